@@ -56,6 +56,22 @@ def run(prog: Program, rep: Report, tier: str) -> None:
         wf, rf = prog.func(FM, w), alias_view(prog.func(FM, r))
         wa, wc = written_keys(wf)
         rr, ro = read_keys(rf)
+        # helpers the baseline does not have and that could not be pasted back (a `**kind` signature, say) read and write on behalf
+        # of their caller: their keys count as the caller's (a helper called under a condition is not modelled: unconditional)
+        def _new_callees(fn, seen=None):
+            seen = seen if seen is not None else set()
+            for c in own_nodes(fn.node, into_lambdas=True):
+                if isinstance(c, ast.Call) and isinstance(c.func, ast.Name):
+                    g_ = fn.module.functions.get(c.func.id)
+                    if g_ is not None and g_.fq() in prog.new_functions and g_.fq() not in seen:
+                        seen.add(g_.fq())
+                        yield g_
+                        yield from _new_callees(g_, seen)
+        for h_ in _new_callees(wf):
+            a_, c_ = written_keys(h_); wa |= a_; wc |= c_
+        for h_ in _new_callees(rf):
+            r_, o_ = read_keys(h_); rr |= r_; ro |= o_
+        wc -= wa
         # keys read inside discriminator branches belong to the to_json writers (checked below)
         disc_keys = discriminator_reader_keys(rf)
         rr_own = rr - disc_keys
@@ -156,7 +172,7 @@ def discriminators(rep: Report, prog: Program) -> None:
                 continue
             primary = set()
             for a_ in own_nodes(init.node):
-                if isinstance(a_, (ast.Assign, ast.AnnAssign)) and a_.value is not None and p in names_in(a_.value):
+                if isinstance(a_, (ast.Assign, ast.AnnAssign)) and a_.value is not None and p in names_in(inline_temps(init.node, a_.value)):
                     for t in (a_.targets if isinstance(a_, ast.Assign) else [a_.target]):
                         if isinstance(t, ast.Attribute) and isinstance(t.value, ast.Name) and t.value.id == selfi:
                             primary.add(t.attr)
